@@ -46,6 +46,10 @@ func (t *Thread) Done() bool { return t.done }
 
 type abortSignal struct{}
 
+// IsAbort reports whether a recovered panic value is the scheduler's own
+// unwinding signal (harness code that recovers must re-panic or ignore it).
+func IsAbort(v any) bool { _, ok := v.(abortSignal); return ok }
+
 // Unsupported is panicked for constructs the scheduler cannot model; the
 // explorer reports it as a machinery error, never as a violation.
 type Unsupported struct{ What string }
